@@ -32,6 +32,7 @@ package eval
 //@   modifies Context.Errors, Context.roots, Context.Stack, Context.dslPackages, elems(Context.roots), phase, dslDone, prepDone, valDone, finDone
 
 //@ func prepareSet
+//@   params set
 //@   trusted
 //@   requires* barrier: phase <= 2
 //@   requires* clean.before.prepare: phase < 2 ==> Context.Errors == nil
@@ -41,6 +42,7 @@ package eval
 //@   modifies Context.Errors, Context.roots, Context.Stack, Context.dslPackages, elems(Context.roots), phase
 
 //@ func validateSet
+//@   params set
 //@   trusted
 //@   requires* barrier: phase <= 3
 //@   ensures old(phase) <= phase && phase <= 3
@@ -48,6 +50,7 @@ package eval
 //@   modifies Context.Errors, Context.roots, Context.Stack, Context.dslPackages, elems(Context.roots), phase
 
 //@ func finalizeSet
+//@   params set
 //@   trusted
 //@   requires* clean.before.finalize: phase < 4 ==> Context.Errors == nil
 //@   ensures old(phase) <= phase && phase <= 4
@@ -57,6 +60,7 @@ package eval
 
 // Roots (dependency sort): assumed here, checked by the bounded stand-in (all digraphs over <= 4 roots).
 //@ func (*DSLContext).Roots
+//@   params c
 //@   trusted
 //@   requires c != nil
 //@   ensures result1 == nil ==> fresh(result0) || len(result0) == 0
@@ -64,6 +68,7 @@ package eval
 //@   modifies nothing
 
 //@ func RunDSL
+//@   locals roots executed start
 //@   property C11
 //@   requires Context != nil && phase == 0
 //@   let n0 = len(old(Context.roots))
